@@ -50,7 +50,7 @@ class ImportModule:
         return {"ImportError": True}
 
 
-@contract("json_to_models/cli.py::dict_lookup", props=["C16"], verify=False)
+@contract("json_to_models/cli.py::dict_lookup", props=["C16", "C17"])
 class DictLookup:
     """'-' / '' selects the document itself, a dotted lookup selects a sub-document (bounded-checked); a step that does not
     exist raises KeyError / TypeError / IndexError"""
@@ -61,6 +61,21 @@ class DictLookup:
 
     def ensures(self, d, lookup, result):
         return {"identity": implies(lookup == "-" or lookup == "", result is d)}
+
+
+@loop("json_to_models/cli.py::dict_lookup", 1)
+def dict_lookup_loop(d, lookup, pre_d, pre_lookup):
+    return {"untouched_or_real_path": (d is pre_d and lookup == pre_lookup) or not (pre_lookup == "-" or pre_lookup == "")}
+
+
+@assumed("str.split:maxsplit", props=[])
+class StrSplitMax:
+    """s.split(sep, maxsplit): a non-empty list of at most maxsplit + 1 strings"""
+    sorts = {"a0": "str", "a1": "str", "a2": "int", "result": "list"}
+
+    def ensures(self, a0, a1, a2, result):
+        return {"nonempty": seq_len(result) >= 1, "strs": forall(result, lambda p: ty_is(p, str)), "is_list": ty_is(result, list),
+                "at_most_maxsplit_plus_one": implies(a2 >= 0, seq_len(result) <= a2 + 1)}
 
 
 @contract("json_to_models/cli.py::iter_json_file", props=["C16", "C17"])
